@@ -2,6 +2,7 @@
      compose <rtype> <field>...        -> Reject | <wire> <rdlen> <rdlen_compress> <canonical>
      parse <rtype> <msg> <pos> <lim>   -> Ok <field>... | Err short | Err form | Panic
      equnk <t1> <octets> <t2> <octets> -> all=<bool> zone=<bool>   (== inside AllRecordData / ZoneRecordData)
+     optdata <code> <option data>      -> Ok <field>... | Err short | Err form   (one option through Opt::iter::<AllOptData>)
      optframe <code>=<data>,...        -> Reject | <OPT data>        (Opt::push of every option in turn)
      optparse <OPT data>               -> Ok <code>=<data>,... | Err short | Err form   (Opt::from_octets + iter)
    Field tokens: numbers in decimal; octets in hex (`-` = empty); names as the
@@ -32,7 +33,7 @@ let tok_of_strs (l : n list list) : string =
 let fval_of_tok (f : field) (tok : string) : fval =
   match f with
   | FNum _ -> VNum (n_of_int (int_of_string tok))
-  | FFix _ | FCharStr _ | FLen16 | FRest _ -> VBytes (bytes_of_hex tok)
+  | FFix _ | FCharStr _ | FLen16 | FRest _ | FChecked _ -> VBytes (bytes_of_hex tok)
   | FName (_, _) -> VName (name_of_wire (bytes_of_hex tok))
   | FCharStrs -> VStrs (strs_of_tok tok)
 let tok_of_fval (x : fval) : string =
@@ -60,7 +61,9 @@ let show_rdlen (o : n option outcome) : string =
 let handle = function
   | "compose" :: t :: toks ->
       let t = n_of_int (int_of_string t) in
-      (match c05_fields t with
+      (* IPSECKEY: the second field (gateway type) selects the row *)
+      let hint = (match toks with _ :: g :: _ when int_of_n t = 45 -> n_of_int (int_of_string g) | _ -> n_of_int 0) in
+      (match c05_fields t hint with
        | None -> "NoSchema"
        | Some fields ->
            if List.length fields <> List.length toks then failwith "field count";
@@ -83,6 +86,12 @@ let handle = function
       let (a, z) = c05_eq_unknown (n_of_int (int_of_string t1)) (bytes_of_hex b1)
                                   (n_of_int (int_of_string t2)) (bytes_of_hex b2) in
       Printf.sprintf "all=%b zone=%b" a z
+  | ["optdata"; code; d] ->
+      (match c05_optdata (n_of_int (int_of_string code)) (bytes_of_hex d) with
+       | Ok v -> String.concat " " ("Ok" :: List.map tok_of_fval v)
+       | Err e -> if int_of_n e = 1 then "Err short" else "Err form"
+       | Panic _ -> "Panic"
+       | OutOfFuel -> "OutOfFuel")
   | ["optframe"; l] ->
       (match c05_optframe (opts_of_tok l) with
        | None -> "Reject"
